@@ -278,8 +278,8 @@ def oracle(case):
         # falsy but not null: outside the statement (R5)
         from vlib.core import Skip
         raise Skip()
-    if "error" not in reply and "result" not in reply:
-        # neither member: not a reply the statement speaks about
+    if ("error" not in reply or error is None) and "result" not in reply:
+        # no (or a null) error and no result: not a reply the statement speaks about
         from vlib.core import Skip
         raise Skip()
     shape = shape_of(error) if error else "success"
@@ -378,9 +378,18 @@ SUBS = [
         what="every integer code around both range boundaries, every path"),
 ]
 
+from vlib import fuzzdrv  # noqa: E402
+
+SUBS.append(
+    Sub("atheris", oracle, external=fuzzdrv.campaign("c06", "c06", max_len=300),
+        budget={"quick": 20000, "thorough": 1000000}, shards={"quick": 2, "thorough": 8},
+        time_cap={"quick": 100, "thorough": 1500},
+        what="coverage-guided campaign (atheris) on reply objects through check_for_errors / ServerProxy / MultiCall, same oracle"))
+
 CLAIM = {
     "technique": "property-based testing (Hypothesis) of the client error classification against a statement-derived oracle; exhaustive enumeration of the integer codes around the range",
     "text": "Generated-input search over reply objects of foreign servers and five client access paths; the expected exception class and arguments are computed from the statement. Exhaustive for integer codes -32710..-31990; random elsewhere.",
     "note": "Canned-reply transport replaces the network; json round-trip of the generated reply stands for the wire.",
     "design_ref": "DESIGN.md section 4, C06",
+    "engine": "E1+E4",
 }
